@@ -1,6 +1,7 @@
 import Driver.Proto
 import Driver.HKmer
 import Driver.HTuple
+import Driver.HPipe
 /-!
 `ragc_model`: executes the Lean models behind a one-line-in / one-line-out protocol.
 Every handler returns `none` for a request it does not understand; the reply is then `bad-op`.
@@ -8,7 +9,7 @@ Every handler returns `none` for a request it does not understand; the reply is 
 namespace Driver
 
 def handlers : List (List String → Option String) :=
-  [handleKmer, handleTuple]
+  [handleKmer, handleTuple, handlePipe]
 
 def dispatch (line : String) : String :=
   let fields := line.trimAscii.toString.splitOn " "
